@@ -214,7 +214,7 @@ namespace vlog {
             FILE* f = g_path.empty() ? stdout : std::fopen(g_path.c_str(), "a");
             if (!f) return;
             flush_to(f, false);
-            std::fprintf(f, "{\"seq\":%llu,\"e\":\"exit\"}\n", (unsigned long long) g_seq.fetch_add(1));
+            std::fprintf(f, "{\"seq\":%llu,\"e\":\"proc_exit\"}\n", (unsigned long long) g_seq.fetch_add(1));
             std::fflush(f);
         });
         for (int s : {SIGSEGV, SIGABRT, SIGBUS, SIGFPE, SIGILL}) std::signal(s, on_signal);
